@@ -1,190 +1,12 @@
-(* Proofs about SM4: bit-level facts, the generated tables against the standard, the T-table round,
-   the unrolled loops against the specification, and the Feistel inversion argument.
-   Property theorems are restated in Props/C05.v. *)
+(* Proofs about the model of sm4.go (SM4/SM4Model.v): the generated tables against the standard, the
+   T-table round, the unrolled loops against the specification, the key schedule, histories, aliasing.
+   Table-free facts are in SM4/SM4Lemmas.v.  Property theorems are restated in Props/C05.v. *)
 From Coq Require Import List NArith Arith Bool Lia ZifyN ZifyNat ZifyBool Btauto.
 From GmsmVerif Require Import Lib.Outcome Gen.SM4Tables SM4.SM4Spec SM4.SM4Model.
+From GmsmVerif Require Export SM4.SM4Lemmas.
 Import ListNotations.
 Open Scope N_scope.
 
-
-(* ---------- bits ------------------------------------------------------------------------------------ *)
-Definition w32 (x : N) : Prop := x < 4294967296.
-Definition hi0 (x : N) : Prop := forall n, 32 <= n -> N.testbit x n = false.
-
-Lemma lt_pow2_bits x k n : x < 2 ^ k -> k <= n -> N.testbit x n = false.
-Proof.
-  intros H Hn. rewrite <- (N.mod_small x (2 ^ k)) by exact H. apply N.mod_pow2_bits_high; exact Hn.
-Qed.
-
-Lemma bits_lt_pow2 x k : (forall n, k <= n -> N.testbit x n = false) -> x < 2 ^ k.
-Proof.
-  intros H. assert (E : x = x mod 2 ^ k).
-  { apply N.bits_inj; intro n. destruct (N.ltb_spec n k) as [Hlt|Hge].
-    - rewrite N.mod_pow2_bits_low by exact Hlt; reflexivity.
-    - rewrite N.mod_pow2_bits_high by exact Hge. apply H; exact Hge. }
-  rewrite E. apply N.mod_lt. apply N.pow_nonzero. discriminate.
-Qed.
-
-Lemma w32_hi0 x : w32 x -> hi0 x.
-Proof. intros H n Hn. apply (lt_pow2_bits x 32); [exact H|exact Hn]. Qed.
-
-Lemma hi0_w32 x : hi0 x -> w32 x.
-Proof. intros H. apply (bits_lt_pow2 x 32). exact H. Qed.
-
-Lemma hi0_lxor a b : hi0 a -> hi0 b -> hi0 (N.lxor a b).
-Proof. intros Ha Hb n Hn. rewrite N.lxor_spec, Ha, Hb by exact Hn. reflexivity. Qed.
-
-Lemma hi0_lor a b : hi0 a -> hi0 b -> hi0 (N.lor a b).
-Proof. intros Ha Hb n Hn. rewrite N.lor_spec, Ha, Hb by exact Hn. reflexivity. Qed.
-
-Lemma hi0_shiftr a k : hi0 a -> hi0 (N.shiftr a k).
-Proof. intros Ha n Hn. rewrite N.shiftr_spec'. apply Ha. lia. Qed.
-
-Lemma hi0_mask x : hi0 (N.land x mask32).
-Proof.
-  intros n Hn. rewrite N.land_spec.
-  rewrite (lt_pow2_bits mask32 32 n) by (try exact Hn; reflexivity). apply andb_false_r.
-Qed.
-
-Lemma w32_lxor a b : w32 a -> w32 b -> w32 (N.lxor a b).
-Proof. intros Ha Hb. apply hi0_w32, hi0_lxor; apply w32_hi0; assumption. Qed.
-
-Lemma land_lxor_distr a b c : N.land (N.lxor a b) c = N.lxor (N.land a c) (N.land b c).
-Proof. apply N.bits_inj; intro n. rewrite !N.land_spec, !N.lxor_spec, !N.land_spec. btauto. Qed.
-
-Ltac xor_ac := apply N.bits_inj; intro; rewrite !N.lxor_spec; btauto.
-
-Lemma land_mask_id x : w32 x -> N.land x mask32 = x.
-Proof. intros H. change mask32 with (N.ones 32). rewrite N.land_ones. apply N.mod_small. exact H. Qed.
-
-Lemma land255_lt x : N.land x 255 < 256.
-Proof. change 255 with (N.ones 8). rewrite N.land_ones. apply N.mod_lt. discriminate. Qed.
-
-(* disjoint lanes: lor = lxor = + *)
-Lemma land_shiftl_disjoint a b k : b < 2 ^ k -> N.land (N.shiftl a k) b = 0.
-Proof.
-  intros Hb. apply N.bits_inj_0; intro n. rewrite N.land_spec.
-  destruct (N.ltb_spec n k) as [Hlt|Hge].
-  - rewrite N.shiftl_spec_low by exact Hlt. reflexivity.
-  - rewrite (lt_pow2_bits b k n Hb Hge). apply andb_false_r.
-Qed.
-
-Lemma lor_shiftl_add a b k : b < 2 ^ k -> N.lor (N.shiftl a k) b = a * 2 ^ k + b.
-Proof.
-  intros Hb. rewrite <- N.lxor_lor by (apply land_shiftl_disjoint; exact Hb).
-  rewrite <- N.add_nocarry_lxor by (apply land_shiftl_disjoint; exact Hb).
-  rewrite N.shiftl_mul_pow2. reflexivity.
-Qed.
-
-Lemma lxor_shiftl_add a b k : b < 2 ^ k -> N.lxor (N.shiftl a k) b = a * 2 ^ k + b.
-Proof.
-  intros Hb. rewrite <- N.add_nocarry_lxor by (apply land_shiftl_disjoint; exact Hb).
-  rewrite N.shiftl_mul_pow2. reflexivity.
-Qed.
-
-Lemma wob_add a0 a1 a2 a3 : a0 < 256 -> a1 < 256 -> a2 < 256 -> a3 < 256 ->
-  word_of_bytes a0 a1 a2 a3 = a0 * 16777216 + a1 * 65536 + a2 * 256 + a3.
-Proof.
-  intros H0 H1 H2 H3. unfold word_of_bytes.
-  rewrite (lor_shiftl_add a2 a3 8) by (change (2 ^ 8) with 256; lia).
-  rewrite (lor_shiftl_add a1 _ 16) by (change (2 ^ 16) with 65536; change (2 ^ 8) with 256; lia).
-  rewrite (lor_shiftl_add a0 _ 24) by (change (2 ^ 24) with 16777216; change (2 ^ 16) with 65536; change (2 ^ 8) with 256; lia).
-  change (2 ^ 24) with 16777216; change (2 ^ 16) with 65536; change (2 ^ 8) with 256. lia.
-Qed.
-
-Lemma wob_xor a0 a1 a2 a3 : a0 < 256 -> a1 < 256 -> a2 < 256 -> a3 < 256 ->
-  word_of_bytes a0 a1 a2 a3 = N.lxor (N.shiftl a0 24) (N.lxor (N.shiftl a1 16) (N.lxor (N.shiftl a2 8) a3)).
-Proof.
-  intros H0 H1 H2 H3. rewrite wob_add by assumption.
-  rewrite (lxor_shiftl_add a2 a3 8) by (change (2 ^ 8) with 256; lia).
-  rewrite (lxor_shiftl_add a1 _ 16) by (change (2 ^ 16) with 65536; change (2 ^ 8) with 256; lia).
-  rewrite (lxor_shiftl_add a0 _ 24) by (change (2 ^ 24) with 16777216; change (2 ^ 16) with 65536; change (2 ^ 8) with 256; lia).
-  change (2 ^ 24) with 16777216; change (2 ^ 16) with 65536; change (2 ^ 8) with 256. lia.
-Qed.
-
-Lemma wob_w32 a0 a1 a2 a3 : a0 < 256 -> a1 < 256 -> a2 < 256 -> a3 < 256 -> w32 (word_of_bytes a0 a1 a2 a3).
-Proof. intros. rewrite wob_add by assumption. unfold w32. lia. Qed.
-
-Lemma byte0_div w : byte0 w = (w / 16777216) mod 256.
-Proof. unfold byte0. change 255 with (N.ones 8). rewrite N.land_ones, N.shiftr_div_pow2. reflexivity. Qed.
-Lemma byte1_div w : byte1 w = (w / 65536) mod 256.
-Proof. unfold byte1. change 255 with (N.ones 8). rewrite N.land_ones, N.shiftr_div_pow2. reflexivity. Qed.
-Lemma byte2_div w : byte2 w = (w / 256) mod 256.
-Proof. unfold byte2. change 255 with (N.ones 8). rewrite N.land_ones, N.shiftr_div_pow2. reflexivity. Qed.
-Lemma byte3_div w : byte3 w = w mod 256.
-Proof. unfold byte3. change 255 with (N.ones 8). rewrite N.land_ones. reflexivity. Qed.
-
-Lemma wob_bytes w : w32 w -> word_of_bytes (byte0 w) (byte1 w) (byte2 w) (byte3 w) = w.
-Proof.
-  intros H. unfold w32 in H.
-  rewrite wob_add by (first [apply land255_lt]).
-  rewrite byte0_div, byte1_div, byte2_div, byte3_div. lia.
-Qed.
-
-Lemma bytes_wob a0 a1 a2 a3 : a0 < 256 -> a1 < 256 -> a2 < 256 -> a3 < 256 ->
-  bytes_of_word (word_of_bytes a0 a1 a2 a3) = [a0; a1; a2; a3].
-Proof.
-  intros. unfold bytes_of_word. rewrite byte0_div, byte1_div, byte2_div, byte3_div.
-  rewrite wob_add by assumption. repeat f_equal; lia.
-Qed.
-
-(* ---------- rotation and the linear transforms ----------------------------------------------------- *)
-Lemma rotl32_xor_form x k : hi0 x -> k <= 32 ->
-  rotl32 x k = N.lxor (N.land (N.shiftl x k) mask32) (N.shiftr x (32 - k)).
-Proof.
-  intros Hx Hk. unfold rotl32. symmetry. apply N.lxor_lor.
-  apply N.bits_inj_0; intro n. rewrite N.land_spec, N.shiftr_spec'.
-  destruct (N.ltb_spec n k) as [Hlt|Hge].
-  - rewrite N.land_spec, N.shiftl_spec_low by exact Hlt. reflexivity.
-  - rewrite Hx by lia. apply andb_false_r.
-Qed.
-
-Lemma rotl32_lxor a b k : hi0 a -> hi0 b -> k <= 32 ->
-  rotl32 (N.lxor a b) k = N.lxor (rotl32 a k) (rotl32 b k).
-Proof.
-  intros Ha Hb Hk.
-  rewrite !rotl32_xor_form by (try apply hi0_lxor; assumption).
-  rewrite N.shiftl_lxor, N.shiftr_lxor, land_lxor_distr. xor_ac.
-Qed.
-
-Lemma hi0_rotl32 x k : hi0 x -> hi0 (rotl32 x k).
-Proof. intros H. unfold rotl32. apply hi0_lor; [apply hi0_mask|apply hi0_shiftr; exact H]. Qed.
-
-Lemma L_lxor a b : hi0 a -> hi0 b -> L (N.lxor a b) = N.lxor (L a) (L b).
-Proof.
-  intros Ha Hb. unfold L. rewrite !rotl32_lxor by (try assumption; lia). xor_ac.
-Qed.
-
-Lemma L'_lxor a b : hi0 a -> hi0 b -> L' (N.lxor a b) = N.lxor (L' a) (L' b).
-Proof.
-  intros Ha Hb. unfold L'. rewrite !rotl32_lxor by (try assumption; lia). xor_ac.
-Qed.
-
-Lemma hi0_L x : hi0 x -> hi0 (L x).
-Proof. intros H. unfold L. repeat apply hi0_lxor; try apply hi0_rotl32; exact H. Qed.
-
-Lemma hi0_L' x : hi0 x -> hi0 (L' x).
-Proof. intros H. unfold L'. repeat apply hi0_lxor; try apply hi0_rotl32; exact H. Qed.
-
-(* ---------- finite sweeps ---------------------------------------------------------------------------- *)
-Definition range256 : list N := map N.of_nat (seq 0 256).
-
-Lemma in_range256 b : b < 256 -> In b range256.
-Proof.
-  intros H. unfold range256. rewrite <- (N2Nat.id b). apply in_map. apply in_seq. lia.
-Qed.
-
-Lemma sweep256 (P : N -> bool) : forallb P range256 = true -> forall b, b < 256 -> P b = true.
-Proof. intros H b Hb. rewrite forallb_forall in H. apply H, in_range256, Hb. Qed.
-
-Lemma sbox_lt b : sbox b < 256.
-Proof.
-  unfold sbox. destruct (nth_in_or_default (N.to_nat b) Sbox 0) as [Hin| ->]; [|reflexivity].
-  assert (H : forallb (fun y => y <? 256) Sbox = true) by (vm_compute; reflexivity).
-  rewrite forallb_forall in H. apply N.ltb_lt, H, Hin.
-Qed.
-
-(* the generated tables against the standard *)
 Lemma gen_sbox_is_Sbox : gen_sbox = Sbox.
 Proof. vm_compute. reflexivity. Qed.
 
@@ -198,25 +20,6 @@ Lemma gen_BlockSize_is_16 : gen_BlockSize = 16.
 Proof. vm_compute. reflexivity. Qed.
 
 (* index of the first occurrence *)
-Fixpoint index_of (y : N) (l : list N) (i : N) : N :=
-  match l with [] => i | x :: r => if N.eqb x y then i else index_of y r (N.succ i) end.
-Definition sbox_inv (y : N) : N := index_of y Sbox 0.
-
-Lemma sbox_inv_sbox b : b < 256 -> sbox_inv (sbox b) = b.
-Proof.
-  intros H. apply N.eqb_eq.
-  apply (sweep256 (fun b => N.eqb (sbox_inv (sbox b)) b)); [vm_compute; reflexivity|exact H].
-Qed.
-
-Lemma sbox_sbox_inv y : y < 256 -> sbox (sbox_inv y) = y /\ sbox_inv y < 256.
-Proof.
-  intros H.
-  assert (E : (N.eqb (sbox (sbox_inv y)) y && (sbox_inv y <? 256))%bool = true).
-  { apply (sweep256 (fun y => (N.eqb (sbox (sbox_inv y)) y && (sbox_inv y <? 256))%bool)); [vm_compute; reflexivity|exact H]. }
-  apply andb_true_iff in E as [E1 E2]. split; [apply N.eqb_eq, E1|apply N.ltb_lt, E2].
-Qed.
-
-(* the four T-tables: lane k of the word is served by sbox_k, i.e. sbox_k[b] = L(Sbox(b) << 8k) *)
 Definition tt_ok (b : N) : bool :=
   (N.eqb (nth (N.to_nat b) gen_sbox0 0) (L (sbox b)) &&
    N.eqb (nth (N.to_nat b) gen_sbox1 0) (L (N.shiftl (sbox b) 8)) &&
@@ -237,23 +40,6 @@ Proof.
   repeat split; apply N.eqb_eq; assumption.
 Qed.
 
-Lemma shl_sbox_hi0 b k : k <= 24 -> hi0 (N.shiftl (sbox b) k).
-Proof.
-  intros Hk. apply w32_hi0. unfold w32. rewrite N.shiftl_mul_pow2.
-  pose proof (sbox_lt b).
-  assert (2 ^ k <= 2 ^ 24) by (apply N.pow_le_mono_r; [discriminate|exact Hk]).
-  change (2 ^ 24) with 16777216 in *. nia.
-Qed.
-
-Lemma tau_xor x :
-  tau x = N.lxor (N.shiftl (sbox (byte0 x)) 24) (N.lxor (N.shiftl (sbox (byte1 x)) 16)
-                 (N.lxor (N.shiftl (sbox (byte2 x)) 8) (sbox (byte3 x)))).
-Proof. unfold tau. apply wob_xor; apply sbox_lt. Qed.
-
-Lemma tau_w32 x : w32 (tau x).
-Proof. unfold tau. apply wob_w32; apply sbox_lt. Qed.
-
-(* the T-table round function is the standard's T, for every word *)
 Lemma tt_is_T x : tt x = T x.
 Proof.
   unfold T. rewrite tau_xor.
@@ -268,23 +54,6 @@ Proof.
   destruct (ttables (byte3 x) (land255_lt _)) as (E0 & _ & _ & _).
   rewrite <- E0, <- E1, <- E2, <- E3. unfold tt, byte0, byte1, byte2, byte3. xor_ac.
 Qed.
-
-Lemma T_hi0 x : hi0 (T x).
-Proof. unfold T. apply hi0_L, w32_hi0, tau_w32. Qed.
-Lemma T'_hi0 x : hi0 (T' x).
-Proof. unfold T'. apply hi0_L', w32_hi0, tau_w32. Qed.
-
-(* ---------- byte strings --------------------------------------------------------------------------- *)
-Definition block16 (l : list N) : Prop := length l = 16%nat /\ bytes_ok l = true.
-
-Lemma bytes_ok_nth l i : bytes_ok l = true -> nth i l 0 < 256.
-Proof.
-  intros H. destruct (nth_in_or_default i l 0) as [Hin| ->]; [|reflexivity].
-  unfold bytes_ok in H. rewrite forallb_forall in H. apply N.ltb_lt, H, Hin.
-Qed.
-
-Ltac list16 l H :=
-  do 16 (destruct l as [|? l]; [discriminate H|]); destruct l; [|discriminate H].
 
 Lemma u32_shl_byte a k : a < 256 -> k <= 24 -> u32 (N.shiftl a k) = N.shiftl a k.
 Proof.
@@ -313,111 +82,6 @@ Proof.
   cbn [nth] in *.
   unfold permuteInitialBlock, state_of_bytes, word_at. cbn [nth Nat.mul Nat.add].
   rewrite !be32_wob by assumption. reflexivity.
-Qed.
-
-Definition state_w32 (s : state) : Prop :=
-  let '(a, b, c, d) := s in w32 a /\ w32 b /\ w32 c /\ w32 d.
-
-Lemma state_of_bytes_w32 l : bytes_ok l = true -> state_w32 (state_of_bytes l).
-Proof.
-  intros Hb. unfold state_of_bytes, word_at, state_w32.
-  repeat split; apply wob_w32; apply bytes_ok_nth; exact Hb.
-Qed.
-
-Lemma state_bytes_state s : state_w32 s -> state_of_bytes (bytes_of_state s) = s.
-Proof.
-  destruct s as [[[a b] c] d]. intros (Ha & Hb & Hc & Hd).
-  unfold state_of_bytes, bytes_of_state, bytes_of_word, word_at. cbn [app nth Nat.mul Nat.add].
-  rewrite !wob_bytes by assumption. reflexivity.
-Qed.
-
-Lemma bytes_state_bytes l : length l = 16%nat -> bytes_ok l = true -> bytes_of_state (state_of_bytes l) = l.
-Proof.
-  intros Hl Hb.
-  pose proof (fun i => bytes_ok_nth l i Hb) as Hn.
-  list16 l Hl.
-  pose proof (Hn 0%nat); pose proof (Hn 1%nat); pose proof (Hn 2%nat); pose proof (Hn 3%nat);
-  pose proof (Hn 4%nat); pose proof (Hn 5%nat); pose proof (Hn 6%nat); pose proof (Hn 7%nat);
-  pose proof (Hn 8%nat); pose proof (Hn 9%nat); pose proof (Hn 10%nat); pose proof (Hn 11%nat);
-  pose proof (Hn 12%nat); pose proof (Hn 13%nat); pose proof (Hn 14%nat); pose proof (Hn 15%nat).
-  cbn [nth] in *.
-  unfold state_of_bytes, bytes_of_state, word_at. cbn [nth Nat.mul Nat.add].
-  rewrite !bytes_wob by assumption. reflexivity.
-Qed.
-
-Lemma bytes_of_word_ok w : bytes_ok (bytes_of_word w) = true.
-Proof.
-  unfold bytes_ok, bytes_of_word, byte0, byte1, byte2, byte3. cbn [forallb].
-  rewrite !(proj2 (N.ltb_lt _ _) (land255_lt _)). reflexivity.
-Qed.
-
-Lemma bytes_of_state_block16 s : block16 (bytes_of_state s).
-Proof.
-  destruct s as [[[a b] c] d]. split; [reflexivity|].
-  unfold bytes_of_state, bytes_ok. rewrite !forallb_app.
-  fold (bytes_ok (bytes_of_word a)); fold (bytes_ok (bytes_of_word b));
-  fold (bytes_ok (bytes_of_word c)); fold (bytes_ok (bytes_of_word d)).
-  rewrite !bytes_of_word_ok. reflexivity.
-Qed.
-
-(* ---------- the Feistel argument: for any round function and any round keys ------------------------- *)
-Section Feistel.
-  Variable f : N -> N.
-
-  Lemma R_R s : R (R s) = s.
-  Proof. destruct s as [[[a b] c] d]. reflexivity. Qed.
-
-  Lemma round_R_round s k : round f (R (round f s k)) k = R s.
-  Proof.
-    destruct s as [[[x0 x1] x2] x3]. unfold round, R.
-    replace (N.lxor x3 (N.lxor x2 (N.lxor x1 k))) with (N.lxor x1 (N.lxor x2 (N.lxor x3 k))) by xor_ac.
-    f_equal. rewrite N.lxor_assoc, N.lxor_nilpotent, N.lxor_0_r. reflexivity.
-  Qed.
-
-  Lemma feistel_inverse rks : forall s,
-    R (fold_left (round f) (rev rks) (R (fold_left (round f) rks s))) = s.
-  Proof.
-    induction rks as [|k rks IH] using rev_ind; intros s.
-    - cbn. apply R_R.
-    - rewrite rev_app_distr. cbn [rev app fold_left].
-      rewrite (fold_left_app (round f) rks [k]). cbn [fold_left].
-      rewrite round_R_round. apply IH.
-  Qed.
-End Feistel.
-
-Lemma round_w32 f s k : (forall x, hi0 (f x)) -> state_w32 s -> state_w32 (round f s k).
-Proof.
-  intros Hf. destruct s as [[[a b] c] d]. intros (Ha & Hb & Hc & Hd). unfold round, state_w32.
-  repeat split; try assumption. apply hi0_w32, hi0_lxor; [apply w32_hi0; exact Ha|apply Hf].
-Qed.
-
-Lemma rounds_w32 f rks : (forall x, hi0 (f x)) -> forall s, state_w32 s -> state_w32 (fold_left (round f) rks s).
-Proof.
-  intros Hf. induction rks as [|k rks IH]; intros s Hs; [exact Hs|].
-  cbn [fold_left]. apply IH, round_w32; assumption.
-Qed.
-
-Lemma R_w32 s : state_w32 s -> state_w32 (R s).
-Proof. destruct s as [[[a b] c] d]. unfold R, state_w32. tauto. Qed.
-
-Lemma crypt_words_w32 rks s : state_w32 s -> state_w32 (crypt_words rks s).
-Proof. intros H. unfold crypt_words. apply R_w32, rounds_w32; [exact T_hi0|exact H]. Qed.
-
-Lemma decrypt_encrypt_rk rks blk : length blk = 16%nat -> bytes_ok blk = true ->
-  sm4_decrypt_rk rks (sm4_encrypt_rk rks blk) = blk.
-Proof.
-  intros Hl Hb. unfold sm4_decrypt_rk, sm4_encrypt_rk, decrypt_words, encrypt_words.
-  rewrite state_bytes_state by (apply crypt_words_w32, state_of_bytes_w32, Hb).
-  unfold crypt_words. rewrite feistel_inverse. apply bytes_state_bytes; assumption.
-Qed.
-
-Lemma encrypt_decrypt_rk rks blk : length blk = 16%nat -> bytes_ok blk = true ->
-  sm4_encrypt_rk rks (sm4_decrypt_rk rks blk) = blk.
-Proof.
-  intros Hl Hb. unfold sm4_decrypt_rk, sm4_encrypt_rk, decrypt_words, encrypt_words.
-  rewrite state_bytes_state by (apply crypt_words_w32, state_of_bytes_w32, Hb).
-  unfold crypt_words. rewrite <- (rev_involutive rks) at 1. rewrite feistel_inverse.
-  apply bytes_state_bytes; assumption.
 Qed.
 
 (* ---------- the unrolled loops of cryptBlock --------------------------------------------------------- *)
@@ -622,19 +286,6 @@ Proof.
     cbn [obind map]. unfold spec_op at 2. cbn [fst snd]. reflexivity.
   - rewrite Encrypt_spec by (try reflexivity; exact Hop). cbn [obind]. rewrite IH.
     cbn [obind map]. unfold spec_op at 2. cbn [fst snd]. reflexivity.
-Qed.
-
-Lemma bytes_ok_firstn n : forall l, bytes_ok l = true -> bytes_ok (firstn n l) = true.
-Proof.
-  induction n as [|n IH]; intros [|x l] H; try reflexivity.
-  cbn [firstn bytes_ok forallb] in *. apply andb_true_iff in H as [H1 H2].
-  rewrite H1. apply IH. exact H2.
-Qed.
-
-Lemma bytes_ok_skipn n : forall l, bytes_ok l = true -> bytes_ok (skipn n l) = true.
-Proof.
-  induction n as [|n IH]; intros [|x l] H; try reflexivity; try exact H.
-  cbn [skipn]. apply IH. cbn [bytes_ok forallb] in H. apply andb_true_iff in H as [_ H2]. exact H2.
 Qed.
 
 Lemma slice_ok {A} (l : list A) lo n : (lo + n <= length l)%nat -> slice l lo (lo + n) = Ok (firstn n (skipn lo l)).
